@@ -116,7 +116,7 @@ def rule_v2000_books(ck, repo, R):
         ck.decide(code is not None and rm.get(code) == c, R, f'v2000:charge:{c}', code, f'charge {c} is written as {code!r}, which is read back as {rm.get(code)}', file=mod.relpath, line=line)
     ck.decide(wm.get(4) == wm.get(-4) == wm.get(0), R, 'v2000:charge:+-4-code', (wm.get(4), wm.get(-4)), 'charges +-4 must use the neutral atom-block code and an M  CHG line', file=mod.relpath, line=line)
     mw = repo.func(f'{W}:MOLWrite._write_molecule')
-    s = ast.get_source_segment(mod.source, mw.node)
+    s = src(mw.node)  # the normalised tree (new helper methods inlined), not the raw text
     ck.decide(_m_chg_exact(mw.node), R, 'v2000:M-CHG', None, 'M  CHG is no longer written exactly for charges +-4', file=mw.file, line=mw.lineno)
     ck.decide("M  ISO  1 {n:3d} {a.isotope:3d}" in s and 'if a.isotope' in s, R, 'v2000:M-ISO', None, 'M  ISO line no longer written for isotopes', file=mw.file, line=mw.lineno)
     ck.decide("M  RAD  1 {n:3d}   2" in s and 'if a.is_radical' in s, R, 'v2000:M-RAD', None, 'M  RAD line no longer written for radicals', file=mw.file, line=mw.lineno)
@@ -142,7 +142,7 @@ def rule_v2000_books(ck, repo, R):
     ck.decide(rd.get(up) == '1' and rd.get(down) == '-1', R, 'v2000:wedge-codes', rd, f'wedge up/down written as {up}/{down}; reader maps {rd}', file=pr.file, line=pr.lineno)
     # V3000
     ew = repo.func(f'{W}:EMOLWrite._write_molecule')
-    es = ast.get_source_segment(mod.source, ew.node)
+    es = src(ew.node)
     er = repo.func(f'{M3}:parse_mol_v3000')
     rs = src(er.node)
     for key, wfrag in (('CHG', "f' CHG={a.charge}' if a.charge else ''"), ('RAD', "' RAD=2' if a.is_radical else ''"), ('MASS', "f' MASS={a.isotope}' if a.isotope else ''")):
